@@ -461,14 +461,8 @@ func ruleC15K5(r *Run) {
 		})
 	}
 	for _, cl := range run.AnonFuncs {
-		check(cl)
-		allInstrs(cl, func(ins ssa.Instruction) {
-			if c, isCall := ins.(*ssa.Call); isCall {
-				if cf := c.Call.StaticCallee(); cf != nil && p.Analysed(cf) {
-					check(cf)
-				}
-			}
-		})
+		// the member, and the unexported functions of the package it calls (two levels)
+		p.withHelpers(cl, 2, func(g *ssa.Function) { check(g) })
 	}
 	r.Check(fnName(run)+" observes the wire connection", ok, p.pos(run.Pos()), fnName(run), "observer: "+where)
 }
